@@ -88,6 +88,25 @@ fn supervise(a: &Args) {
 }
 
 const KINDS: [&str; 4] = ["arr", "vec", "box", "mut"];
+/// Fixed does not require `Copy` elements: the `t…` kinds hold drop-tracked owned elements
+const KINDS_F: [&str; 8] = ["arr", "tvec", "box", "tmut", "tarr", "vec", "tbox", "mut"];
+const MAX: usize = usize::MAX;
+const HALF: usize = 1 << (usize::BITS - 1);
+
+/// a rare index value: at/near usize::MAX (within `near` of it and of MAX - a, MAX - b), around 2^63, 2^32
+fn extreme_index(rng: &mut Rng, a: usize, b: usize, near: usize) -> usize {
+    let k = rng.usize_below(near + 2);
+    match rng.below(8) {
+        0 => MAX,
+        1 => MAX - k,
+        2 => (MAX - a).wrapping_sub(k) ,
+        3 => (MAX - b).wrapping_sub(k),
+        4 => HALF.wrapping_add(k),
+        5 => HALF - 1 - k,
+        6 => (1usize << 32).wrapping_add(k).wrapping_sub(near / 2),
+        _ => MAX - rng.usize_below(a + b + 2),
+    }
+}
 const CANARY: i32 = -777_777;
 const PAD: usize = 8;
 
@@ -137,32 +156,102 @@ impl Seen {
 // ---------------------------------------------------------------------------------------------
 // storage kinds
 
-trait Runner {
+/// element types the buffers are instantiated with: plain `i32` samples, and `Tok`, an owned
+/// (non-Copy) element with a destructor whose life is tracked
+trait Elem: Sized {
+    fn mk(v: i32) -> Self;
+    /// look at the element (through a reference): its value
+    fn val(&self) -> i32;
+}
+impl Elem for i32 {
+    fn mk(v: i32) -> i32 { v }
+    fn val(&self) -> i32 { *self }
+}
+
+/// life-cycle registry of the `Tok` elements of the running case
+#[derive(Default)]
+struct Registry {
+    /// per serial number: 1 = live, 0 = dropped
+    state: Vec<u8>,
+    values: Vec<i32>,
+    errors: Vec<(String, String, String)>,
+}
+thread_local! { static REG: std::cell::RefCell<Registry> = std::cell::RefCell::new(Registry::default()); }
+
+struct Tok { serial: usize, v: i32 }
+impl Elem for Tok {
+    fn mk(v: i32) -> Tok {
+        REG.with(|r| { let mut r = r.borrow_mut(); r.state.push(1); r.values.push(v); Tok { serial: r.state.len() - 1, v } })
+    }
+    fn val(&self) -> i32 {
+        REG.with(|r| {
+            let mut r = r.borrow_mut();
+            if r.state.get(self.serial) != Some(&1) && r.errors.len() < 4 {
+                r.errors.push(("an element handed out by the buffer had already been dropped (a slot holding no live element was exposed)".into(),
+                    "a live element".into(), format!("element with value {} (#{}) observed after its destructor ran", self.v, self.serial)));
+            }
+        });
+        self.v
+    }
+}
+impl Drop for Tok {
+    fn drop(&mut self) {
+        REG.with(|r| {
+            let mut r = r.borrow_mut();
+            match r.state.get(self.serial).copied() {
+                Some(1) => r.state[self.serial] = 0,
+                _ => if r.errors.len() < 4 {
+                    r.errors.push(("an element was dropped twice".into(), "every element dropped exactly once".into(),
+                        format!("second drop of the element with value {} (#{})", self.v, self.serial)));
+                }
+            }
+        });
+    }
+}
+fn registry_reset() { REG.with(|r| *r.borrow_mut() = Registry::default()); }
+/// after the buffer and everything it returned are gone: errors seen, plus elements never dropped
+fn registry_verdict() -> Vec<(String, String, String)> {
+    REG.with(|r| {
+        let mut r = r.borrow_mut();
+        let leaked: Vec<String> = r.state.iter().enumerate().filter(|(_, s)| **s == 1).map(|(i, _)| format!("{} (#{})", r.values[i], i)).collect();
+        let mut e = std::mem::take(&mut r.errors);
+        if !leaked.is_empty() {
+            e.push(("elements were never dropped although the buffer and all returned elements are gone".into(), "every element dropped exactly once".into(),
+                format!("never dropped: {}", leaked.join(" "))));
+        }
+        e
+    })
+}
+
+trait Runner<E> {
     type Out;
-    fn run<S: SliceMut<Element = i32>>(self, data: S) -> Self::Out;
+    fn run<S: SliceMut<Element = E>>(self, data: S) -> Self::Out;
 }
 
 const ARR_SIZES: [usize; 12] = [0, 1, 2, 3, 4, 5, 6, 7, 8, 16, 32, 64];
 
 /// run `r` on the requested storage kind; second component: the memory around a `&mut [T]` backing
 /// slice is untouched (always true for owned storage)
-fn dispatch<R: Runner>(kind: &str, data: Vec<i32>, r: R) -> (R::Out, bool) {
+fn dispatch<E: Elem, R: Runner<E>>(kind: &str, values: Vec<i32>, r: R) -> (R::Out, bool) {
+    let n = values.len();
     macro_rules! arr { ($($n:literal)*) => {
-        match data.len() {
-            $( $n => { let a: [i32; $n] = data.clone().try_into().unwrap(); return (r.run(a), true); } )*
+        match n {
+            $( $n => {
+                let data: Vec<E> = values.iter().map(|v| E::mk(*v)).collect();
+                let a: [E; $n] = match data.try_into() { Ok(a) => a, Err(_) => unreachable!() };
+                return (r.run(a), true);
+            } )*
             _ => unreachable!("array kind requested for unsupported length"),
         }
     } }
     match kind {
         "arr" => { arr!(0 1 2 3 4 5 6 7 8 16 32 64) }
-        "vec" => (r.run(data), true),
-        "box" => (r.run(data.into_boxed_slice()), true),
+        "vec" => (r.run(values.iter().map(|v| E::mk(*v)).collect::<Vec<E>>()), true),
+        "box" => (r.run(values.iter().map(|v| E::mk(*v)).collect::<Vec<E>>().into_boxed_slice()), true),
         "mut" => {
-            let n = data.len();
-            let mut area = vec![CANARY; n + 2 * PAD];
-            area[PAD..PAD + n].copy_from_slice(&data);
+            let mut area: Vec<E> = (0..n + 2 * PAD).map(|i| E::mk(if i >= PAD && i < PAD + n { values[i - PAD] } else { CANARY })).collect();
             let out = r.run(&mut area[PAD..PAD + n]);
-            let ok = area[..PAD].iter().chain(area[PAD + n..].iter()).all(|&x| x == CANARY);
+            let ok = area[..PAD].iter().chain(area[PAD + n..].iter()).all(|x| x.val() == CANARY);
             (out, ok)
         }
         _ => unreachable!(),
@@ -272,7 +361,7 @@ fn exec_b<S: SliceMut<Element = i32>>(slot: &mut Option<Bounded<S>>, op: &BOp, e
 }
 
 struct BRun<'a> { ctor: BCtor, ops: &'a [BOp] }
-impl<'a> Runner for BRun<'a> {
+impl<'a> Runner<i32> for BRun<'a> {
     type Out = (Option<Vec<Seen>>, Extra);
     fn run<S: SliceMut<Element = i32>>(self, data: S) -> Self::Out {
         let ctor = self.ctor;
@@ -388,6 +477,13 @@ fn obs_block_b(cap: usize, out: &mut Vec<BOp>) {
     out.push(BOp::Ix(cap));
 }
 
+/// indices at and near usize::MAX (every k < cap+1 below it), 2^63: no element there, nothing may be exposed
+fn extreme_block_b(cap: usize, out: &mut Vec<BOp>) {
+    for k in 0..=cap { out.push(BOp::Get(MAX - k)); }
+    out.extend([BOp::Get(HALF), BOp::Get(HALF - 1), BOp::Ix(MAX), BOp::Ix(MAX - (cap - 1)), BOp::Gm(MAX, 7), BOp::Gm(MAX - (cap - 1), 7),
+        BOp::Ixm(MAX - (cap - 1), 7), BOp::Iter]);
+}
+
 /// run one Bounded case on the real code, write it to the stream, check it against the ideal queue
 fn case_b(st: &mut Stream, kind: &str, ctor: BCtor, data: &[i32], ops: &[BOp]) {
     let cap = data.len();
@@ -402,7 +498,7 @@ fn case_b(st: &mut Stream, kind: &str, ctor: BCtor, data: &[i32], ops: &[BOp]) {
     for op in ops { line.push(' '); line.push_str(&op.token()); }
 
     mark_current(&line);
-    let ((seen, extra), canary_ok) = dispatch(kind, data.to_vec(), BRun { ctor, ops });
+    let ((seen, extra), canary_ok) = dispatch::<i32, _>(kind, data.to_vec(), BRun { ctor, ops });
     let (start0, len0) = match ctor { BCtor::Raw(s, l) => (s, l), BCtor::Full => (0, cap), BCtor::Empty => (0, 0) };
     let valid = start0 < cap && len0 <= cap;
     st.count(&format!("kind_{}", kind));
@@ -489,6 +585,8 @@ fn run_bounded(a: &Args) {
                         c /= NSYM_B;
                         obs_block_b(cap, &mut ops);
                     }
+                    // rare index values on the final state (quick: every 4th sequence; section 2b covers every state)
+                    if a.thorough() || code % 4 == 1 { extreme_block_b(cap, &mut ops); }
                     ops.push(BOp::Data);
                     case_b(&mut st, KINDS[counter % 4], BCtor::Raw(start, len), &data, &ops);
                     counter += 1;
@@ -514,6 +612,21 @@ fn run_bounded(a: &Args) {
                     case_b(&mut st, kind, ctor, &data, &ops);
                 }
             }
+        }
+    }
+
+    // ---- 2b. extreme indices from every small state (capacity <= 6) on every storage kind
+    for kind in KINDS {
+        for cap in 1..=6usize {
+            let data: Vec<i32> = (0..cap as i32).map(|i| 11 + i).collect();
+            for start in 0..cap { for len in 0..=cap {
+                let mut ops = vec![];
+                extreme_block_b(cap, &mut ops);
+                ops.extend([BOp::Drain(MAX), BOp::Len, BOp::Raw]);
+                extreme_block_b(cap, &mut ops);
+                ops.push(BOp::Data);
+                case_b(&mut st, kind, BCtor::Raw(start, len), &data, &ops);
+            } }
         }
     }
 
@@ -558,7 +671,7 @@ fn run_bounded(a: &Args) {
         let push_bias = rng.below(3); // 0: draining histories, 1: balanced, 2: filling histories
         for _ in 0..n_ops {
             let idx = |rng: &mut Rng, est: usize| -> usize {
-                match rng.below(6) { 0 => 0, 1 => est, 2 => est.saturating_sub(1), 3 => cap, 4 => rng.usize_below(cap + 2), _ => rng.usize_below(est.max(1)) }
+                match rng.below(7) { 0 => 0, 1 => est, 2 => est.saturating_sub(1), 3 => cap, 4 => rng.usize_below(cap + 2), 5 => extreme_index(rng, cap, est, cap), _ => rng.usize_below(est.max(1)) }
             };
             let val = |rng: &mut Rng, v: &mut Vals| -> i32 { if rng.chance(1, 5) { rng.range(-50, 50) as i32 } else { v.next() } };
             let op = match rng.below(24) {
@@ -573,7 +686,7 @@ fn run_bounded(a: &Args) {
                 16 | 17 => BOp::Slices,
                 18 => { let n = rng.usize_below(cap + 2); BOp::Im((0..n).map(|_| val(&mut rng, &mut v)).collect()) }
                 19 => { let n = rng.usize_below(cap + 2); BOp::Sm((0..n).map(|_| val(&mut rng, &mut v)).collect()) }
-                20 => BOp::Drain(rng.usize_below(est + 2)),
+                20 => BOp::Drain(if rng.chance(1, 8) { extreme_index(&mut rng, cap, est, 2) } else { rng.usize_below(est + 2) }),
                 21 => { let n = rng.usize_below(cap.min(6) + 2); BOp::Ext((0..n).map(|_| val(&mut rng, &mut v)).collect()) }
                 22 => BOp::Raw,
                 _ => BOp::Len,
@@ -618,11 +731,13 @@ impl FOp {
 #[derive(Clone, Copy, Debug)]
 enum FCtor { Raw(usize), From }
 
-fn exec_f<S: SliceMut<Element = i32>>(slot: &mut Option<Fixed<S>>, op: &FOp, extra: &mut Extra) -> Seen {
+fn exec_f<S: SliceMut>(slot: &mut Option<Fixed<S>>, op: &FOp, extra: &mut Extra) -> Seen
+where S::Element: Elem {
+    fn vals<E: Elem>(xs: &[E]) -> Vec<i32> { xs.iter().map(|e| e.val()).collect() }
     if matches!(op, FOp::Raw | FOp::Data) {
         let f = match slot.take() { Some(f) => f, None => return Seen::Dead };
         let (first, d) = f.into_raw_parts();
-        let copy = d.slice().to_vec();
+        let copy = vals(d.slice());
         return match guarded(move || Fixed::from_raw_parts(first, d)) {
             Some(f) => { *slot = Some(f); Seen::Raw(first, None, if matches!(op, FOp::Data) { Some(copy) } else { None }) }
             None => Seen::Panic,
@@ -631,31 +746,32 @@ fn exec_f<S: SliceMut<Element = i32>>(slot: &mut Option<Fixed<S>>, op: &FOp, ext
     let rb = match slot.as_mut() { Some(r) => r, None => return Seen::Dead };
     let mut ex: Extra = vec![];
     let r = guarded(|| match op {
-        FOp::Push(x) => Seen::Opt(Some(rb.push(*x))),
+        // the returned element is looked at, then dropped by the caller
+        FOp::Push(x) => Seen::Opt(Some(rb.push(S::Element::mk(*x)).val())),
         FOp::Get(i) => {
-            let (g, ix) = (*rb.get(*i), rb[*i]);
+            let (g, ix) = (rb.get(*i).val(), rb[*i].val());
             if g != ix { ex.push((format!("rb[{}] differs from get({})", i, i), g.to_string(), ix.to_string())); }
             Seen::Opt(Some(g))
         }
         // odd written values go through IndexMut, even ones through get_mut
-        FOp::Gm(i, x) => Seen::Opt(Some(if x % 2 == 0 { std::mem::replace(rb.get_mut(*i), *x) } else { std::mem::replace(&mut rb[*i], *x) })),
+        FOp::Gm(i, x) => Seen::Opt(Some(if x % 2 == 0 { std::mem::replace(rb.get_mut(*i), S::Element::mk(*x)).val() } else { std::mem::replace(&mut rb[*i], S::Element::mk(*x)).val() })),
         FOp::First(i) => { rb.set_first(*i); Seen::Unit }
         FOp::Len => Seen::Nat(rb.len()),
-        FOp::Iter => Seen::List(rb.iter().copied().collect()),
-        FOp::Loop(n) => Seen::List(rb.iter_loop().take(*n).copied().collect()),
+        FOp::Iter => Seen::List(rb.iter().map(|e| e.val()).collect()),
+        FOp::Loop(n) => Seen::List(rb.iter_loop().take(*n).map(|e| e.val()).collect()),
         FOp::Im(xs) => {
             let mut seen = vec![];
-            for (k, r) in rb.iter_mut().enumerate() { seen.push(*r); if k < xs.len() { *r = xs[k]; } }
+            for (k, r) in rb.iter_mut().enumerate() { seen.push(r.val()); if k < xs.len() { *r = S::Element::mk(xs[k]); } }
             Seen::List(seen)
         }
-        FOp::Slices => { let (a, b) = rb.slices(); Seen::Pair(a.to_vec(), b.to_vec()) }
+        FOp::Slices => { let (a, b) = rb.slices(); Seen::Pair(vals(a), vals(b)) }
         FOp::Sm(xs) => {
             let (a, b) = rb.slices_mut();
-            let out = Seen::Pair(a.to_vec(), b.to_vec());
-            for (r, x) in a.iter_mut().chain(b.iter_mut()).zip(xs.iter()) { *r = *x; }
+            let out = Seen::Pair(vals(a), vals(b));
+            for (r, x) in a.iter_mut().chain(b.iter_mut()).zip(xs.iter()) { *r = S::Element::mk(*x); }
             out
         }
-        FOp::Ext(xs) => { rb.extend(xs.iter().copied()); Seen::Unit }
+        FOp::Ext(xs) => { rb.extend(xs.iter().map(|x| S::Element::mk(*x))); Seen::Unit }
         FOp::Raw | FOp::Data => unreachable!(),
     });
     extra.extend(ex);
@@ -674,9 +790,9 @@ fn exec_f<S: SliceMut<Element = i32>>(slot: &mut Option<Fixed<S>>, op: &FOp, ext
 }
 
 struct FRun<'a> { ctor: FCtor, ops: &'a [FOp] }
-impl<'a> Runner for FRun<'a> {
+impl<'a, E: Elem> Runner<E> for FRun<'a> {
     type Out = (Option<Vec<Seen>>, Extra);
-    fn run<S: SliceMut<Element = i32>>(self, data: S) -> Self::Out {
+    fn run<S: SliceMut<Element = E>>(self, data: S) -> Self::Out {
         let ctor = self.ctor;
         let rb = guarded(move || match ctor { FCtor::Raw(f) => Fixed::from_raw_parts(f, data), FCtor::From => Fixed::from(data) });
         let mut extra = vec![];
@@ -775,6 +891,65 @@ fn obs_block_f(n: usize, out: &mut Vec<FOp>) {
     for i in 0..=2 * n { out.push(FOp::Get(i)); }
 }
 
+/// where `first` is after `op` on an ideal delay line (push advances by one, set_first is absolute mod N)
+fn first_after(first: usize, n: usize, op: &FOp) -> usize {
+    match op { FOp::Push(_) => (first + 1) % n, FOp::Ext(xs) => (first + xs.len()) % n, FOp::First(i) => *i % n, _ => first }
+}
+
+/// indices at and near usize::MAX / 2^63 for get, get_mut/IndexMut and set_first. The claimed domain
+/// is first + index <= usize::MAX (props/C06.json "assumptions"; beyond it see `probe_fixed_index_overflow`),
+/// so the largest indices used are usize::MAX - first - k.
+fn extreme_block_f(n: usize, first: usize, out: &mut Vec<FOp>) -> usize {
+    for k in 0..=n.min(4) { out.push(FOp::Get(MAX - first - k)); }
+    out.extend([FOp::Get(HALF), FOp::Get(HALF - 1), FOp::Gm(MAX - first, 8), FOp::Gm(MAX - first - 1, 9), FOp::Iter]);
+    out.extend([FOp::First(MAX), FOp::Raw, FOp::Iter]);
+    let f1 = MAX % n;
+    out.extend([FOp::Get(MAX - f1), FOp::First(MAX - 1), FOp::Raw, FOp::First(HALF), FOp::Raw, FOp::Iter]);
+    HALF % n
+}
+
+/// Beyond the claimed domain: `Fixed::get/get_mut/Index` compute `(first + index) % len` in usize. For
+/// first >= 1 and index > usize::MAX - first the sum overflows: builds with overflow checks panic, builds
+/// without wrap to `first + index - 2^64`, whose residue mod N differs from `(first + index) mod N` unless N
+/// divides 2^64. Probed natively (not sent through the model). A mismatch is reported as a known finding
+/// if /verif/known_findings.json lists id `C06-fixed-index-overflow` as known, else recorded in the notes.
+fn probe_fixed_index_overflow(st: &mut Stream) {
+    let listed = std::fs::read_to_string("/verif/known_findings.json").ok().map_or(false, |t| {
+        t.split('{').any(|obj| obj.contains("C06-fixed-index-overflow") && obj.contains("\"known\""))
+    });
+    let (mut n_ok, mut n_panic, mut n_wrong) = (0u64, 0u64, 0u64);
+    let mut example: Option<(String, String)> = None;
+    for n in 1..=9usize {
+        for first in 1..n {
+            let data: Vec<i32> = (0..n as i32).map(|i| 11 + i).collect();
+            let all: Vec<i32> = data.iter().cycle().skip(first).take(n).copied().collect();
+            for k in 0..first {
+                let i = MAX - k; // first + i overflows
+                let want = all[i % n];
+                let d = data.clone();
+                let got = guarded(move || { let rb = Fixed::from_raw_parts(first, d); *rb.get(i) });
+                match got {
+                    Some(v) if v == want => n_ok += 1,
+                    other => {
+                        if other.is_none() { n_panic += 1 } else { n_wrong += 1 }
+                        let case = format!("fixed vec raw {} {} {} | get:{}", first, n, csv(&data).replace(',', " "), i);
+                        let obs = format!("{} (oldest-first element i mod N = {})", other.map_or("panic".to_string(), |v| v.to_string()), want);
+                        if listed { st.known_hit("C06-fixed-index-overflow", &case, &obs); }
+                        if example.is_none() { example = Some((case, obs)); }
+                    }
+                }
+            }
+        }
+    }
+    st.count_n("probe_fixed_index_overflow_correct", n_ok);
+    st.count_n("probe_fixed_index_overflow_panic", n_panic);
+    st.count_n("probe_fixed_index_overflow_wrong_element", n_wrong);
+    if let Some((case, obs)) = example {
+        st.note(&format!("outside the claimed domain (first + index > usize::MAX): Fixed::get computes (first + index) % len in usize; {} probes panicked, {} returned another element than index mod N, {} correct; e.g. `{}` -> {}{}",
+            n_panic, n_wrong, n_ok, case, obs, if listed { "" } else { " (not listed in known_findings.json: recorded here only)" }));
+    }
+}
+
 fn case_f(st: &mut Stream, kind: &str, ctor: FCtor, data: &[i32], ops: &[FOp]) {
     let n = data.len();
     let head = match ctor { FCtor::Raw(f) => format!("raw {} {}", f, n), FCtor::From => format!("from {}", n) };
@@ -784,12 +959,28 @@ fn case_f(st: &mut Stream, kind: &str, ctor: FCtor, data: &[i32], ops: &[FOp]) {
     for op in ops { line.push(' '); line.push_str(&op.token()); }
 
     mark_current(&line);
-    let ((seen, extra), canary_ok) = dispatch(kind, data.to_vec(), FRun { ctor, ops });
+    // kinds starting with `t` hold tracked non-Copy elements (Fixed does not require Copy)
+    let tracked = kind.starts_with('t');
+    let ((seen, mut extra), canary_ok) = if tracked {
+        registry_reset();
+        let out = dispatch::<Tok, _>(&kind[1..], data.to_vec(), FRun { ctor, ops });
+        out
+    } else {
+        dispatch::<i32, _>(kind, data.to_vec(), FRun { ctor, ops })
+    };
+    if tracked {
+        // the buffer, its storage and every returned element are gone by now
+        let v = registry_verdict();
+        if v.is_empty() { st.oracle_ok(1); }
+        extra.extend(v);
+        st.count("cases_with_drop_tracked_elements");
+    }
     let first0 = match ctor { FCtor::Raw(f) => f, FCtor::From => 0 };
     let valid = first0 < n;
     st.count(&format!("kind_{}", kind));
     st.count(&format!("n_{}", if n <= 5 { n.to_string() } else if n <= 16 { "6-16".into() } else { "17-64".into() }));
     let mut nontrivial = false;
+    for (what, e, o) in &extra { st.oracle_fail(what, &line, e, o); }
     let obs = match &seen {
         None => {
             st.count("ctor_panic");
@@ -804,7 +995,6 @@ fn case_f(st: &mut Stream, kind: &str, ctor: FCtor, data: &[i32], ops: &[FOp]) {
                 let mut id = IdealD { entered: Some(q.iter().copied().collect()), q, n, first: first0, pushes: 0 };
                 let mut n_ok = 0;
                 let mut moved = first0 != 0;
-                for (what, e, o) in &extra { st.oracle_fail(what, &line, e, o); }
                 for (k, (op, s)) in ops.iter().zip(seen.iter()).enumerate() {
                     if *s == Seen::Dead { break; }
                     st.count(&format!("op_{}", op.kind()));
@@ -825,7 +1015,7 @@ fn case_f(st: &mut Stream, kind: &str, ctor: FCtor, data: &[i32], ops: &[FOp]) {
             seen.iter().map(|s| s.show()).collect::<Vec<_>>().join(" ")
         }
     };
-    if !canary_ok { st.oracle_fail("memory outside the backing slice was written", &line, "guard cells untouched", "guard cell changed"); } else if kind == "mut" { st.oracle_ok(1); }
+    if !canary_ok { st.oracle_fail("memory outside the backing slice was written", &line, "guard cells untouched", "guard cell changed"); } else if kind.ends_with("mut") { st.oracle_ok(1); }
     st.case(&line, &obs, nontrivial, ops.len() as u64 + 1);
     sync_failures(st);
 }
@@ -861,17 +1051,19 @@ fn run_fixed(a: &Args) {
                 let mut ops = vec![];
                 obs_block_f(n, &mut ops);
                 let mut c = code;
-                for _ in 0..depth { ops.push(alphabet_f(c % NSYM_F, n, &mut v)); c /= NSYM_F; obs_block_f(n, &mut ops); }
+                let mut f = first;
+                for _ in 0..depth { let op = alphabet_f(c % NSYM_F, n, &mut v); f = first_after(f, n, &op); ops.push(op); c /= NSYM_F; obs_block_f(n, &mut ops); }
+                if a.thorough() || code % 4 == 1 { extreme_block_f(n, f, &mut ops); }
                 ops.push(FOp::Data);
-                case_f(&mut st, KINDS[counter % 4], FCtor::Raw(first), &data, &ops);
+                case_f(&mut st, KINDS_F[counter % 8], FCtor::Raw(first), &data, &ops);
                 counter += 1;
             }
         }
     }
     st.note(&format!("exhaustive part: all 15 (N<=5,first) states x all {}^{} sequences over the mutating alphabet {{push,get_mut(1),index_mut(N+1),set_first(1),set_first(2N-1),extend(2),iter_mut write 1,slices_mut write N+1}}, every read-only view after every op", NSYM_F, depth));
 
-    // ---- 2. every storage kind x every state x sequences of length 2, and `From`
-    for kind in KINDS {
+    // ---- 2. every storage kind (plain and drop-tracked elements) x every state x sequences of length 2, and `From`
+    for kind in KINDS_F {
         for n in 1..=5usize {
             let data: Vec<i32> = (0..n as i32).map(|i| 11 + i).collect();
             let mut ctors = vec![FCtor::From];
@@ -880,7 +1072,9 @@ fn run_fixed(a: &Args) {
                 for code in 0..NSYM_F * NSYM_F {
                     let mut v = Vals(100);
                     let mut ops = vec![];
-                    for sym in [code % NSYM_F, code / NSYM_F] { ops.push(alphabet_f(sym, n, &mut v)); obs_block_f(n, &mut ops); }
+                    let mut f = match ctor { FCtor::Raw(f) => f, FCtor::From => 0 };
+                    for sym in [code % NSYM_F, code / NSYM_F] { let op = alphabet_f(sym, n, &mut v); f = first_after(f, n, &op); ops.push(op); obs_block_f(n, &mut ops); }
+                    if code % 4 == 0 { extreme_block_f(n, f, &mut ops); }
                     ops.push(FOp::Data);
                     case_f(&mut st, kind, ctor, &data, &ops);
                 }
@@ -896,12 +1090,22 @@ fn run_fixed(a: &Args) {
             let mut ops = vec![];
             for k in 0..3 * n + 2 { ops.push(FOp::Push(v.next())); ops.push(FOp::Get(n - 1)); ops.push(FOp::Get(0)); if k % 2 == 0 { ops.push(FOp::Iter); } }
             ops.push(FOp::Data);
-            case_f(&mut st, KINDS[(n + first) % 4], FCtor::Raw(first), &data, &ops);
+            case_f(&mut st, KINDS_F[(n + first) % 8], FCtor::Raw(first), &data, &ops);
+            // extreme indices from every small state on every kind
+            for kind in KINDS_F {
+                let mut ops = vec![];
+                let f = extreme_block_f(n, first, &mut ops);
+                ops.push(FOp::Push(500));
+                extreme_block_f(n, (f + 1) % n, &mut ops);
+                ops.push(FOp::Data);
+                case_f(&mut st, kind, FCtor::Raw(first), &data, &ops);
+            }
         }
     }
+    probe_fixed_index_overflow(&mut st);
 
     // ---- 4. malformed constructor arguments incl. empty storage
-    for kind in KINDS {
+    for kind in KINDS_F {
         for n in 0..=5usize {
             let data: Vec<i32> = (0..n as i32).map(|i| 11 + i).collect();
             for first in n..=n + 2 { case_f(&mut st, kind, FCtor::Raw(first), &data, &[FOp::Len]); }
@@ -913,33 +1117,36 @@ fn run_fixed(a: &Args) {
     let n_rand = if a.thorough() { 60_000 } else { 6_000 };
     for _ in 0..n_rand {
         let n = match rng.below(4) { 0 => 1 + rng.usize_below(5), 1 => 1 + rng.usize_below(8), 2 => 1 + rng.usize_below(16), _ => 1 + rng.usize_below(64) };
-        let mut kind = *rng.pick(&KINDS);
-        if kind == "arr" && !ARR_SIZES.contains(&n) { kind = *rng.pick(&["vec", "box", "mut"]); }
+        let mut kind = *rng.pick(&KINDS_F);
+        if kind.ends_with("arr") && !ARR_SIZES.contains(&n) { kind = *rng.pick(&["vec", "tbox", "tmut", "tvec", "box", "mut"]); }
         let data: Vec<i32> = (0..n).map(|_| rng.range(-50, 50) as i32).collect();
         let ctor = if rng.chance(1, 8) { FCtor::From } else { FCtor::Raw(if rng.chance(1, 4) { n - 1 } else { rng.usize_below(n) }) };
         let mut v = Vals(1000);
         let n_ops = 1 + rng.usize_below(40);
         let pushy = rng.chance(1, 3); // pure push histories keep the "N pushes earlier" oracle alive
         let mut ops = vec![];
+        let mut f = match ctor { FCtor::Raw(f) => f, FCtor::From => 0 };
         for _ in 0..n_ops {
-            let idx = |rng: &mut Rng| -> usize { match rng.below(5) { 0 => 0, 1 => n - 1, 2 => n, 3 => rng.usize_below(3 * n + 1), _ => rng.usize_below(n) } };
+            // `lim`: largest index in the claimed domain (first + index <= usize::MAX); set_first has no limit
+            let idx = |rng: &mut Rng, lim: usize| -> usize { match rng.below(6) { 0 => 0, 1 => n - 1, 2 => n, 3 => rng.usize_below(3 * n + 1), 4 => extreme_index(rng, lim.wrapping_sub(MAX).wrapping_neg(), n, n).min(lim), _ => rng.usize_below(n) } };
             let val = |rng: &mut Rng, v: &mut Vals| -> i32 { if rng.chance(1, 5) { rng.range(-50, 50) as i32 } else { v.next() } };
             let r = if pushy { rng.below(12) } else { rng.below(22) };
             let op = match r {
                 0..=5 => FOp::Push(val(&mut rng, &mut v)),
-                6 | 7 => FOp::Get(idx(&mut rng)),
+                6 | 7 => FOp::Get(idx(&mut rng, MAX - f)),
                 8 => FOp::Iter,
                 9 => FOp::Loop(rng.usize_below(3 * n + 2)),
                 10 => FOp::Slices,
                 11 => { let k = rng.usize_below(n.min(6) + 2); FOp::Ext((0..k).map(|_| val(&mut rng, &mut v)).collect()) }
-                12 | 13 => FOp::Gm(idx(&mut rng), val(&mut rng, &mut v)),
-                14 | 15 => FOp::First(idx(&mut rng)),
+                12 | 13 => FOp::Gm(idx(&mut rng, MAX - f), val(&mut rng, &mut v)),
+                14 | 15 => FOp::First(idx(&mut rng, MAX)),
                 16 => { let k = rng.usize_below(n + 2); FOp::Im((0..k).map(|_| val(&mut rng, &mut v)).collect()) }
                 17 => { let k = rng.usize_below(n + 2); FOp::Sm((0..k).map(|_| val(&mut rng, &mut v)).collect()) }
                 18 => FOp::Raw,
                 19 => FOp::Len,
                 _ => FOp::Push(val(&mut rng, &mut v)),
             };
+            f = first_after(f, n, &op);
             ops.push(op);
         }
         ops.extend([FOp::Len, FOp::Iter, FOp::Slices, FOp::Data]);
